@@ -16,6 +16,9 @@ Layers (DESIGN §7 C09, design_notes/C09.md):
      harness/impl/corevm.py) are replayed in the Lean model; the model's index must equal the real one after every
      external event and every guard of the model must hold on the recorded stream.
   4. CoreVM correspondence (whole-interpreter model) on the program fragment it covers.
+  5. reference matches (phase 5): every real registration of a head on `match $ref.M()` / `$e.action.M()` ... is re-computed by
+     Models/RefName.lean::nameOf from the referent observed at that moment (driver op C09.refname) — `compare_refnames`; the
+     oracle's scan takes the waited name from `get_event_from_element` evaluated on the CURRENT context.
 """
 import json
 import random
@@ -23,6 +26,7 @@ import signal
 
 from ..impl import corevm as cv
 from ..impl import corevm_gen as gen
+from ..impl import corevm_refgen as refgen
 from ..impl import valjson as vj
 from ..translate import corevm as trvm
 
@@ -36,17 +40,22 @@ RULE = ("program: 1-5 generated Colang 2.x flows (match/send/start/await, and/or
         "x length <=5 for small programs; several tie-break seeds; extra shapes: main flow not kept alive (restarted, stays WAITING), "
         "histories dense in clock jumps / save-restore round trips, observer flows (flow-object events of flows started by somebody "
         "else inside `when` conditions and groups), control events addressed through a flow reference (`send $ref.Stop()`, "
-        "StopFlow / FinishFlow by flow_instance_uid), `deactivate`. non-trivial = at least one event moved a head that was "
+        "StopFlow / FinishFlow by flow_instance_uid), `deactivate`; ONE reference match statement reached several times with references of different kinds (harness/impl/corevm_refgen.py: "
+        "generic helper flows over a `$ref` parameter used with actions of two types and flows, loops re-binding one variable, activated watcher flows "
+        "waiting on `$e.action.Finished()` / `$e.flow.Finished()` that restart, parametrised flows, every member of the event-name maps; outgoing events echoed as input). non-trivial = at least one event moved a head that was "
         "parked (index changed) AND the program has >=2 flow instances or a fork; distinct = distinct (program, history, seed).")
 TRUSTED_BASE = [
     "recorder harness/impl/corevm.py (monkey-patched setters / dict wrapper; appends only) and the pattern grouping `group_ops`",
     "Lean driver Drive/C09.lean (JSON codec) ; the repo's own parser + expand_elements produce the programs both sides run",
-    "oracle harness/props/C09.py::oracle (from-scratch scan written from the property statement)",
+    "oracle harness/props/C09.py::oracle (from-scratch scan written from the property statement; the name a parked match waits for is "
+    "taken from get_event_from_element on the current context, the function the dispatcher compares incoming events with)",
+    "recorder wrapper of _add_head_to_event_matching_structures (referent class / type as seen at the registration; appends only)",
 ]
 ASSUMPTIONS = [
     "uuid4 uids are fresh and head uids have fixed length (reverse-map key flow_uid+head_uid modelled as a pair)",
     "the event name of a parked match element does not change while the head is parked (NoRefReassignWhileParked); the oracle "
-    "recomputes the name on every observation and reports when it differs",
+    "recomputes the name on every observation and reports when it differs (index-name-stale: changed since a correct registration at "
+    "the current position; index-name-wrong-at-registration: never was the element's name)",
     "hand-modelled: _flow_head_changed, _add/_remove_head_*_event_matching_structures, FlowHead.position/status setters, "
     "every write to FlowState.heads / FlowState.status in statemachine.py (slide, _abort_flow, _finish_flow, add_new_flow_instance, _clean_up_state)",
 ]
@@ -253,6 +262,9 @@ def _extra_cases(rng, tier):
 def gen_cases(rng, tier):
     cases = gen.gen_cases(rng, tier)
     cases.extend(_extra_cases(rng, tier))
+    # one match statement over a reference reached several times with references of different kinds (second instance of a
+    # generic helper flow, next loop iteration, restart of an activated flow): harness/impl/corevm_refgen.py
+    cases.extend(refgen.cases(rng, tier))
     return cases
 
 
@@ -281,7 +293,11 @@ def snapshot(state):
         for hu, h in fs.heads.items():
             el = els[h.position] if 0 <= h.position < len(els) else None
             heads.append({"uid": hu, "pos": h.position, "status": h.status.value, "kind": _elem_kind(el),
-                          "name": cv.name_at(state, fs, h.position), "key_ok": hu == h.uid and h.flow_state_uid == uid,
+                          # the event the element waits for NOW (dispatcher's view, current context); `reg_name`: what it named
+                          # when the head was last registered (None: never registered through the interpreter's own function)
+                          "name": cv.waited_name_at(state, fs, h.position), "reg_name": (cv.REC.regnames.get((uid, hu)) or [None, None])[0],
+                          "reg_pos": (cv.REC.regnames.get((uid, hu)) or [None, None])[1],
+                          "key_ok": hu == h.uid and h.flow_state_uid == uid,
                           "cb": h.position_changed_callback is not None and h.status_changed_callback is not None})
         scopes_f, scopes_a = [], []
         for sc in fs.scopes.values():
@@ -352,6 +368,17 @@ def _model_event(ev):
     return d
 
 
+def _ref_vars(el):
+    """names under which a match element stores the matched event (`... as $e`)"""
+    r = getattr(getattr(el, "spec", None), "ref", None)
+    if not r:
+        return []
+    try:
+        return [r["elements"][0]["elements"][0].lstrip("$")]
+    except Exception:  # noqa
+        return ["?"]
+
+
 def _waited_event(state, item, started):
     """An external event built from what the k-th registered (non-internal) head is waiting for."""
     sm = cv.sm
@@ -388,6 +415,15 @@ def _waited_event(state, item, started):
         args[k0] = "other"
     ev = {"type": ref.name, **args}
     au = getattr(ref, "action_uid", None)
+    if not au and "Action" in ref.name and _ref_vars(els[pos]):
+        # the match stores the event in a reference (`match StartFooAction() as $e`, `match FooAction.Started() as $e`): hand in
+        # the event of a RUNNING action of that type (the runtime feeds every outgoing event back; the action server names the
+        # action), so that `$e.action` is an action
+        hit = [x for x in started if ref.name in ("Start" + x[1], x[1] + "Started", x[1] + "Updated")]
+        if hit:
+            ev["action_uid"] = hit[item[1] % len(hit)][0]
+        elif mode == "exact":
+            return None   # (the spurious event of an action nobody started is still sent in the other modes)
     if au:
         ev["action_uid"] = au
         if ref.name.endswith("Finished"):
@@ -437,6 +473,7 @@ def run_impl(case):
         auto = case.get("auto") or {}
         auto_n = {}
         budget_auto = 200
+        last_out = []
         while events:
             item = events.pop(0)
             step = {"item": item}
@@ -473,6 +510,14 @@ def run_impl(case):
                     step["noop"] = "nothing waited for"
                     obs["steps"].append(step)
                     continue
+            elif kind == "echo":
+                # an outgoing event of the previous step handed back as input — what RuntimeV2_x.process_events does with
+                # every outgoing event (`input_events.extend(new_outgoing_events)`)
+                if not last_out:
+                    step["noop"] = "nothing to echo"
+                    obs["steps"].append(step)
+                    continue
+                ev = dict(last_out[item[1] % len(last_out)])
             elif kind == "clock":
                 cv.REC.clock += float(item[1])
                 step["noop"] = "clock"
@@ -508,6 +553,7 @@ def run_impl(case):
             step["loops"] = cv.take_loops()
             step["ops"], step["op_problems"] = cv.group_ops(prims)
             step["choices"] = cv.take_choices()
+            step["refregs"] = cv.take_refregs()
             step["snap"] = snapshot(state)
             step["caught"], cv.REC.notes = cv.REC.notes, []
             step["vm"] = vm_digest(state)
@@ -521,6 +567,8 @@ def run_impl(case):
                 if isinstance(oe.get("type"), str) and oe["type"].startswith("Stop") and oe["type"].endswith("Action"):
                     pass
             step["out"] = json.loads(json.dumps(out, default=str))
+            if state.outgoing_events:
+                last_out = [json.loads(json.dumps(oe, default=str)) for oe in state.outgoing_events if isinstance(oe.get("type"), str)]
             obs["steps"].append(step)
             if "exc" in step:
                 break
@@ -539,6 +587,10 @@ def run_impl(case):
             signal.setitimer(signal.ITIMER_REAL, 0)
         except Exception:  # noqa
             pass
+    # how many different event names ONE match statement was registered with during this case (1 for every statement whose
+    # name is static; >= 2: a reference statement reached with references of different kinds)
+    obs["stmt_names_max"] = max([len(v) for v in cv.REC.stmt_names.values()] or [0])
+    obs["stmt_multi"] = sorted({k[0] for k, v in cv.REC.stmt_names.items() if len(v) >= 2})
     # the oracle is evaluated here (in the worker) on the full snapshots; only what the comparisons need travels back
     obs["findings"] = _compute_findings(obs)
     obs["latent"] = _latent_regions(obs)
@@ -578,6 +630,11 @@ def model_requests(case, obs):
                 d = _norm_digest(st["vm"])
                 cv.digest_uid_order(d, table)
         reqs.append({"m": "C09.run", "prog": obs["prog"], "events": evs, "fuel": 300})
+    # every registration of a head on a reference match (`match $ref.Finished()`, `$e.action.Finished()` ...): the name is
+    # re-computed by Models/RefName.lean::nameOf from the referent observed at that moment
+    items = [{"var": r["var"], "members": r["members"], "obj": r["obj"]} for st in obs["steps"] for r in st.get("refregs", [])]
+    if items:
+        reqs.append({"m": "C09.refname", "items": items})
     return reqs
 
 
@@ -700,9 +757,33 @@ def compare_vm(case, obs, res):
     return None
 
 
+def compare_refnames(case, obs, res):
+    """Every head the interpreter registered on a reference match is filed under the name `RefName.nameOf` computes from the
+    referent the variable held at that moment (or both raise the same class of exception)."""
+    regs = [(n, r) for n, st in enumerate(obs["steps"]) for r in st.get("refregs", [])]
+    if not isinstance(res, list) or len(res) != len(regs):
+        return f"C09.refname driver failed: {str(res)[:200]}"
+    obs["_refnames"] = len(regs)
+    for (n, r), m in zip(regs, res):
+        where = f"step {n}: head {r['key']} reached `match ${r['var']}{''.join('.' + x for x in (r['members'] or []))}` at {r['flow_id']}:{r['pos']} holding {json.dumps(r['obj'])[:120]}"
+        if "raise" in r:
+            if m.get("err") != r["raise"]:
+                return f"{where}: the interpreter raised {r['raise']} but the model says {m}"
+        elif m.get("ok") != r.get("bucket"):
+            return f"{where}: filed under {r.get('bucket')!r} but the model names {m}"
+    return None
+
+
 def compare(case, obs, mouts):
     if not mouts:
         return None
+    mouts = list(mouts)
+    has_ref = any(st.get("refregs") for st in obs["steps"])
+    ref_out = mouts.pop() if has_ref and len(mouts) >= 2 else None
+    if ref_out is not None:
+        r = compare_refnames(case, obs, ref_out)
+        if r:
+            return r
     r = compare_index(case, obs, mouts[0])
     if r:
         return r
@@ -772,7 +853,20 @@ def check_snapshot(snap):
         by_key_w = {tuple(k): nm for nm, k in want}
         renamed = [e for e in stale if tuple(e[1]) in by_key_w]
         if renamed and len(missed) == len(stale) == len(renamed):
-            bad.append(("index-name-stale", f"head registered under {renamed[0][0]!r} but its element now names {by_key_w[tuple(renamed[0][1])]!r}"))
+            # every difference is a head filed under another name than the one its element names now.  Two different classes:
+            #   * the bucket IS the name the element named when the head was registered AT THE POSITION IT STILL HAS, and the name
+            #     changed afterwards (a context variable was reassigned while the head waited)     -> index-name-stale
+            #   * the bucket was never the element's name, not even at the moment of the registration (the name was not taken from
+            #     the current value of the reference: cached per statement / flow / position ...)  -> index-name-wrong-at-registration
+            reg = {(i["uid"], h["uid"]): (h.get("reg_name") if h.get("reg_pos") == h["pos"] else None) for i in snap["insts"] for h in i["heads"]}
+            wrong = [e for e in renamed if reg.get(tuple(e[1])) != e[0]]
+            if wrong:
+                e = wrong[0]
+                bad.append(("index-name-wrong-at-registration", f"head {e[1]} is filed under {e[0]!r} but its match element names {by_key_w[tuple(e[1])]!r} "
+                            f"(and named {reg.get(tuple(e[1]))!r} when the head was registered there; None = never registered at this position): "
+                            f"the event of that name never reaches the head"))
+            else:
+                bad.append(("index-name-stale", f"head registered under {renamed[0][0]!r} but its element now names {by_key_w[tuple(renamed[0][1])]!r}"))
         else:
             sig = "index-missed" if missed and not stale else ("index-stale" if stale and not missed else "index-differs")
             bad.append((sig, f"index != scan: missed {missed[:3]} stale {stale[:3]}"))
@@ -908,15 +1002,27 @@ def _latent_regions(obs):
     return sorted(out)
 
 
+def _lead(f):
+    """The finding a case is reported with: `index-name-stale` (the class of the open finding) only if there is nothing else."""
+    for x in f:
+        if x[0] != "index-name-stale":
+            return x
+    return f[0]
+
+
 def oracle(case, obs):
     f = _findings(case, obs)
-    return f[0][1] if f else None
+    return _lead(f)[1] if f else None
 
 
 def signature(case, obs, msg):
     f = _findings(case, obs)
     if f:
-        s = f[0][0]
+        s = _lead(f)[0]
+        # exactly the open finding: the head WAS filed under the name its element named at the moment of the registration
+        # (`check_snapshot` says `index-name-stale` only then) and a flow sharing the context reassigned the variable while the
+        # head waited.  A head filed under a name its element did not name even when it was registered is another class
+        # (`index-name-wrong-at-registration`), whatever the program does with contexts.
         if s == "index-name-stale" and gen.shares_context(case):
             return "index-name-stale:shared-context"
         return s
@@ -968,6 +1074,9 @@ def tags(case, obs):
             t.append("op-problem")
         if st.get("choices"):
             t.append("tie-break")
+    t.append("stmt-names-max:" + str(obs.get("stmt_names_max", 0)))
+    t.append("refname-registrations:" + str(min(50, obs.get("_refnames", 0) // 5 * 5)))
+    t.extend("stmt-multi-name-in:" + f for f in obs.get("stmt_multi", []))
     nb = sum(len(st.get("loops", [])) for st in obs["steps"])
     t.append("loop-boundaries:" + str(min(2000, nb // 50 * 50)))
     for st in obs["steps"]:
@@ -997,4 +1106,5 @@ def escalate(rng, case, tier):
         for _ in range(100):
             out.append(dict(case, history=_history_x(rng, rng.randrange(2, 30)), tie_seed=rng.randrange(1 << 30)))
     out.extend(_extra_cases(rng, "quick"))
+    out.extend(refgen.cases(rng, "quick"))
     return out
